@@ -141,10 +141,40 @@ func runC01(ctx *core.Ctx, idx int) *core.Result {
 	}
 	var srcs, extra []string
 	nfiles := 5
+	// every 10th case: a second change in the same patch file uses, as an ordinary name, a name that the first one
+	// declares as a metavariable; it matches that name only
+	var lit *gen.Change
+	litName := ""
+	if idx%10 == 7 && idx%7 != 3 && len(c.Meta) > 0 && c.Kind != "decl" {
+		litName = c.Meta[r.Intn(len(c.Meta))].Name
+		if !strings.ContainsAny(litName, "«»") && litName != "_" {
+			lit = &gen.Change{Kind: "expr", Schema: "c01-literal-use-of-neighbours-metavariable",
+				Lines: []gen.Line{gen.L('-', "litUse("+litName+", 1)"), gen.L('+', "litUsed("+litName+")")}}
+		}
+	}
 	for f := 0; f < nfiles; f++ {
 		plants, kinds := g.InstancePlants(c, r.Intn(4), r.Intn(4))
+		if lit != nil {
+			for i := 0; i < 1+r.Intn(3); i++ {
+				arg := litName
+				if r.Intn(2) == 0 {
+					arg = g.Atom()
+				}
+				plants = append(plants, gen.Plant{Kind: "expr", Text: "litUse(" + arg + ", 1)"})
+			}
+			kinds = append(kinds, "literal-use")
+		}
 		srcs = append(srcs, g.File(gen.FileOpts{Plants: plants}))
 		extra = append(extra, strings.Join(kinds, ","))
+	}
+	if lit != nil {
+		seq := []*gen.Change{c, lit}
+		if r.Intn(2) == 0 {
+			seq = []*gen.Change{lit, c}
+		}
+		res.Ob("patterns:with-literal-use-of-neighbours-metavariable", 1)
+		semBatchSeq(ctx, idx, res, seq, srcs, extra, idx%8 == 0, "C01")
+		return res
 	}
 	semBatch(ctx, idx, res, c, srcs, extra, idx%8 == 0, "C01")
 	return res
